@@ -124,7 +124,7 @@ impl FileDesc {
         {
             // Calculate the source block length of Raptor / RaptorQ
 
-            let (_, _, _, nb_blocks) = partition::block_partitioning(
+            let (a_large, a_small, nb_a_large, nb_blocks) = partition::block_partitioning(
                 oti.maximum_source_block_length as u64,
                 object.transfer_length,
                 oti.encoding_symbol_length as u64,
@@ -156,6 +156,17 @@ impl FileDesc {
                     return Err(FluteError::new(
                         "FEC Raptor is selected, however scheme parameters are not defined",
                     ));
+                }
+
+                // The Raptor encoder cannot encode a source block of 2 or 3 symbols
+                let is_unsupported = |k: u64| k == 2 || k == 3;
+                if (nb_a_large < nb_blocks && is_unsupported(a_small))
+                    || (nb_a_large > 0 && is_unsupported(a_large))
+                {
+                    return Err(FluteError::new(format!(
+                        "Object transfer length of {} is partitioned in source blocks of {} or {} symbols, Raptor does not support source blocks of 2 or 3 symbols, your object is incompatible with the FEC parameters of your OTI",
+                        object.transfer_length, a_large, a_small
+                    )));
                 }
 
                 let nb_blocks:u16 = nb_blocks.try_into().map_err(|_| {
